@@ -697,6 +697,7 @@ func writeEvidence(e *Engine, prop, tier string, sums []*Summary, nViol int, inc
 	sort.Slice(fns, func(i, j int) bool { return fns[i].Name < fns[j].Name })
 	sort.Strings(libfns)
 	paths, nontrivial, obl, dis, triv, unk := 0, 0, 0, 0, 0, 0
+	pruned, infeasible := 0, 0
 	var q SolverStats
 	var samples []interface{}
 	hrows := []map[string]interface{}{}
@@ -704,7 +705,9 @@ func writeEvidence(e *Engine, prop, tier string, sums []*Summary, nViol int, inc
 	assumptions := map[string]bool{}
 	exhaustive := len(inconclusive) == 0
 	for _, s := range sums {
-		paths += s.Paths
+		paths += s.Paths - s.Outcomes["pruned-sleep"] - s.Outcomes["infeasible"]
+		pruned += s.Outcomes["pruned-sleep"]
+		infeasible += s.Outcomes["infeasible"]
 		nontrivial += s.PathsWithObl
 		obl += s.Obligations
 		dis += s.Discharged
@@ -747,6 +750,8 @@ func writeEvidence(e *Engine, prop, tier string, sums []*Summary, nViol int, inc
 			"checker_cmd":  fmt.Sprintf("/verif/vcheck %s %s", prop, tier),
 			"trusted_base": []string{"gosym (this engine: go/ssa interpreter, term simplifier, SMT-LIB printer)", "golang.org/x/tools v0.29.0 go/ssa builder", "z3 4.8.12 / cvc5 1.0 (bv-as-int) / z3 5.1.0", "intrinsics listed in DESIGN.md §2.6", "environment models in /verif/harness/models_*.go"},
 			"exhaustive":   exhaustive,
+			"exhaustive_scope": "every feasible decision vector (data branches, verifChoose picks, scheduler picks) within the stated loop-unwinding and delay bounds was executed; schedules that only re-order independent steps of an executed one are pruned by sleep sets",
+			"paths_pruned_by_sleep_sets": pruned, "paths_ended_by_an_unsatisfied_assumption": infeasible,
 			"harnesses":    hrows,
 			"functions_encoded": fns, "library_functions_executed_from_ssa": libfns,
 			"bounds_hit": cuts,
